@@ -1,3 +1,4 @@
 import Cgm.Lemmas.AuditCmd
 import Cgm.Props.C01
+import Cgm.Props.C01b
 #audit_namespace Cg.C01
